@@ -27,12 +27,18 @@ def run(ctx):
     if drift and not ctx.viol:
         raise vlib.Inconclusive("model drift: %d recorded run(s) are not behaviours of Server.tla although no property-level anomaly was observed; first: run %s at event %s after %s" % (
             len(drift), drift[0][0], json.dumps(drift[0][1]), json.dumps(drift[0][2])[:1200]))
+    # the HTTP transport (kmipserver/http.go): every document shape of TextShapes.tla posted to the handler
+    from checks import shapes
+    rows, _, _ = shapes.replay(ctx)
+    nhttp = shapes.judge_c08(ctx, rows)
     runs = sc.split_runs(log)
     div = sum(r[-1].get("diverged", 0) for r in runs if r[-1]["ev"] == "end")
     ctx.finish("model_checking", {
         "evaluations": nruns + len(panics),
         "distinct_nontrivial": len({json.dumps([[x.get("p"), x.get("g"), x.get("act"), x.get("kind")] for x in r if x["ev"] in ("rel", "env")]) for r in runs}),
         "rule": "a run = one controlled execution of the real kmipserver over in-memory connections (gate controller releases one goroutine or performs one client action at a time); %d runs start from TLC-generated schedules into the critical windows (%s), the rest are seeded random walks of the controller; distinct = distinct release/environment sequences; every run is validated event by event by TLC against TraceServer.tla and judged by the property-level oracle (panic, leaked goroutine, response order/duplication/completeness, invalid-message reply)" % (len(scheds), ", ".join(TRAPS)),
+        "http_requests": nhttp,
+        "http_rule": "every XML / JSON request document enumerated by TLC from TextShapes.tla (well-formed, alternative notations and ~110 malformations per node) is posted to kmipserver.NewHTTPHandler: ServeHTTP must return, with status 200 and exactly one response message of one item, failed when the request cannot be decoded",
         "trap_schedules": len(scheds), "schedule_commands_diverged": div, "events_validated": len(log),
         "samples": [scheds[0]] + runs[len(runs) // 2][:25],
     }, assumptions=["controlled runs are sequences of macro-steps (one shared-memory operation per release); the equivalence of free-running executions to such sequences rests on the linearizability of Go's channels, atomics and contexts",
